@@ -47,7 +47,7 @@ PROPS = {
         "min": {"quick": {"c03.a_obligations": 40, "c03.b_obligations": 40}},
         "rule": R("c03grid enumerates fault kind (9) x first faulty heartbeat attempt (1..6) x H (5), remaining dimensions (TTL ratio, latency, had-watch-loop) drawn per case; oracle: virtual-time bounds H+2To after replacement/deletion/expiry and 3H+3To after the last successful refresh, at most 3 failing attempts"), "assumptions": SIM_ASSUME},
     "C04": {"level": "exploration", "trigger": ["c04.calls"],
-        "batches": [sim("hostile", 300, 6000), sim("multiterm", 60, 1000), sim("lateack", 192, 768), sim("longprobe", 24, 240), sim("holdrace", 350, 3500)],
+        "batches": [sim("hostile", 300, 6000), sim("multiterm", 60, 1000), sim("lateack", 192, 768), sim("longprobe", 32, 320), sim("holdrace", 350, 3500)],
         "min": {"quick": {"c04.true": 100, "c04.false": 300, "c04.calls_with_change_inside": 20}},
         "rule": R("hostile class: outside party rewrites the record with a 23-production payload grammar, deletes/expires it, Get faults, probes with background/cancelled/deadline contexts, probes parked inside their Get while the record changes; oracle: verdict vs. record versions live during the call interval"), "assumptions": SIM_ASSUME},
     "C05": {"level": "exploration", "trigger": ["c05.acquisitions"],
